@@ -215,21 +215,22 @@ def check(case):
     return o.ok()
 
 
-def mk_shape(b):
+def mk_shape(b, **kw):
+    """the shape from its parameters; further keyword arguments (paint, ids, ...) go to the constructor as given"""
     se = lib.L()
     kind, v = b
     if kind == "rect":
-        return se.Rect(v[0], v[1], v[2], v[3], v[4], v[5])
+        return se.Rect(v[0], v[1], v[2], v[3], v[4], v[5], **kw)
     if kind == "circle":
-        return se.Circle(v[0], v[1], v[2])
+        return se.Circle(v[0], v[1], v[2], **kw)
     if kind == "ellipse":
-        return se.Ellipse(v[0], v[1], v[2], v[3])
+        return se.Ellipse(v[0], v[1], v[2], v[3], **kw)
     if kind == "line":
-        return se.SimpleLine(v[0], v[1], v[2], v[3])
+        return se.SimpleLine(v[0], v[1], v[2], v[3], **kw)
     if kind == "polyline":
-        return se.Polyline(*[tuple(p) for p in v])
+        return se.Polyline(*[tuple(p) for p in v], **kw)
     if kind == "polygon":
-        return se.Polygon(*[tuple(p) for p in v])
+        return se.Polygon(*[tuple(p) for p in v], **kw)
     raise core.HarnessError("shape kind %r" % kind)
 
 
